@@ -90,7 +90,31 @@ func submatchesToRegexpResults(submatches [][]int, groups []string) []regexpResu
 	return results
 }
 
+// regexp2 gives \a and \e (BEL and ESC) and \A, \G, \Z and \z (anchors) their .NET meaning. In an ECMAScript
+// pattern without the u flag they are identity escapes (Annex B), which is also how the re2 translation treats them.
+func regexp2IdentityEscapes(src string) string {
+	var sb strings.Builder
+	pos := 0
+	for i := 0; i < len(src)-1; i++ {
+		if src[i] == '\\' {
+			if c := src[i+1]; c == 'a' || c == 'e' || c == 'A' || c == 'G' || c == 'Z' || c == 'z' {
+				sb.WriteString(src[pos:i])
+				pos = i + 1
+			}
+			i++
+		}
+	}
+	if pos == 0 {
+		return src
+	}
+	sb.WriteString(src[pos:])
+	return sb.String()
+}
+
 func compileRegexp2(src string, multiline, dotAll, ignoreCase, unicode bool) (*regexp2Wrapper, error) {
+	if !unicode {
+		src = regexp2IdentityEscapes(src)
+	}
 	var opts = regexp2.ECMAScript
 	if multiline {
 		opts |= regexp2.Multiline
